@@ -73,11 +73,16 @@ class RangelistModel(object):
         rng_i=0
         while rng_i < len(self.range_l):
             for r in other.range_l:
-                rng_i = self._intersect(
+                rng_i_n = self._intersect(
                     self.range_l,
                     rng_i,
                     self.range_l[rng_i],
                     r)
+                if rng_i_n < rng_i:
+                    # The range was removed. Move on to the 
+                    # range that now takes its place
+                    rng_i = rng_i_n
+                    break
             rng_i += 1
     
     def _intersect(self,
